@@ -100,6 +100,8 @@ def run_cell(cell):
         return cell_malformed(cell)
     if kind == 'deepspec':
         return cell_deepspec(cell)
+    if kind == 'pairs':
+        return cell_pairs(cell)
     return {'status': 'harness', 'msg': 'unknown cell'}
 
 
@@ -373,6 +375,56 @@ def cell_depth(cell):
                 bad[name] = o
         out['at_limit_failures'] = bad
     return out
+
+
+PAIR_KINDS = ('list', 'tuple', 'dict', 'od', 'dd', 'dd_none', 'deque', 'deque_maxlen', 'nt', 'ss', 'cg', 'fn', 'none', 'leaf',
+              'empty_list', 'empty_dict', 'empty_dd', 'dict_other_keys', 'dict3')
+
+
+def _pair_tree(kind):
+    import os
+    from collections import OrderedDict, defaultdict, deque
+    from vlib import universe as U
+    a, b = U.Leaf(1), U.Leaf(2)
+    return {
+        'list': lambda: [a, b], 'tuple': lambda: (a, b), 'dict': lambda: {'x': a, 'y': b}, 'od': lambda: OrderedDict(y=a, x=b),
+        'dd': lambda: defaultdict(int, {'x': a, 'y': b}), 'dd_none': lambda: defaultdict(None, {'y': a, 'x': b}),
+        'deque': lambda: deque([a, b]), 'deque_maxlen': lambda: deque([a, b], maxlen=5), 'nt': lambda: U.NT2(a, b),
+        'ss': lambda: os.terminal_size((3, 4)), 'cg': lambda: U.CG(a, b), 'fn': lambda: U.FN([a, b], None), 'none': lambda: None,
+        'leaf': lambda: a, 'empty_list': lambda: [], 'empty_dict': lambda: {}, 'empty_dd': lambda: defaultdict(list),
+        'dict_other_keys': lambda: {'x': a, 'z': b}, 'dict3': lambda: {'x': a, 'y': b, 'w': [a]},
+    }[kind]()
+
+
+def cell_pairs(cell):
+    """every binary treespec / tree operation on operands of (mis)matching kinds: a result or an exception, no crash"""
+    import optree
+    from vlib import universe as U
+    ka = cell['a']
+    ns = U.NSF
+    calls = exc = internal = 0
+    for nil in (False, True):
+        ta = _pair_tree(ka)
+        A = optree.tree_structure(ta, none_is_leaf=nil, namespace=ns)
+        for kb in PAIR_KINDS:
+            tb = _pair_tree(kb)
+            B = optree.tree_structure(tb, none_is_leaf=nil, namespace=ns)
+            for fn in (lambda: A.broadcast_to_common_suffix(B), lambda: B.broadcast_to_common_suffix(A), lambda: A.is_prefix(B),
+                       lambda: A.is_suffix(B), lambda: (A == B, A != B, A <= B, A < B), lambda: A.compose(B), lambda: A.flatten_up_to(tb),
+                       lambda: B.flatten_up_to(ta), lambda: optree.tree_broadcast_common(ta, tb, none_is_leaf=nil, namespace=ns),
+                       lambda: optree.tree_broadcast_prefix(ta, tb, none_is_leaf=nil, namespace=ns),
+                       lambda: optree.tree_map(lambda x, y: x, ta, tb, none_is_leaf=nil, namespace=ns),
+                       lambda: optree.tree_map_with_path(lambda p, x, y: x, ta, tb, none_is_leaf=nil, namespace=ns),
+                       lambda: optree.prefix_errors(ta, tb, none_is_leaf=nil, namespace=ns),
+                       lambda: optree.tree_broadcast_map(lambda x, y: x, ta, tb, none_is_leaf=nil, namespace=ns),
+                       lambda: optree.tree_transpose(A, B, ta), lambda: A.unflatten(B.flatten_up_to(tb)) if A.num_leaves == B.num_leaves else None):
+                calls += 1
+                o = outcome(fn)
+                if o['status'] == 'exc':
+                    exc += 1
+                    if o['type'] in ('InternalError', 'SystemError'):
+                        internal += 1
+    return {'status': 'pairs', 'calls': calls, 'exc': exc, 'internal_errors': internal}
 
 
 def cell_deepspec(cell):
@@ -893,7 +945,7 @@ class C16(runner.Prop):
                    'depth': lambda c: f"depth/{c['container']}", 'selfref': lambda c: f"selfref/{c['container']}",
                    'args': lambda c: 'args', 'program': lambda c: 'program', 'count': lambda c: 'count',
                    'malformed': lambda c: f"malformed/{c['how']}",
-                   'deepspec': lambda c: f"deepspec/{c['method']}"}[kind](case)
+                   'deepspec': lambda c: f"deepspec/{c['method']}", 'pairs': lambda c: f"pairs/{c['a']}"}[kind](case)
             summary = _first_lines(crash['stderr'])
             ctx.fail(f'crash/{key}', f'worker died ({what}) on {json.dumps(crash["journal"] or case)[:300]} :: {summary}')
             return
@@ -923,6 +975,13 @@ class C16(runner.Prop):
                 for name in ('flatten', 'with_path', 'iter', 'accessors', 'map_with_path'):
                     if v.get(name) is None:
                         ctx.fail('malformed/accepted', f'{case}: {name} accepted children/entries mismatch')
+        elif kind == 'pairs':
+            ctx.nontrivial(True)
+            ctx.label('pairs_cell')
+            ctx.extra_cov['pair_calls'] = ctx.extra_cov.get('pair_calls', 0) + res['calls']
+            ctx.extra_cov['pair_calls_exc'] = ctx.extra_cov.get('pair_calls_exc', 0) + res['exc']
+            if res['internal_errors']:
+                ctx.fail(f'pairs/{case["a"]}/internal_error', f'{res["internal_errors"]} calls raised InternalError / SystemError')
         elif kind == 'deepspec':
             ctx.nontrivial(True)
             ctx.label('deepspec_cell')
@@ -962,6 +1021,8 @@ class C16(runner.Prop):
         for k in ('list', 'dict', 'od', 'dd', 'deque', 'custom', 'mutual', 'endless_flatten'):
             cells.append({'kind': 'selfref', 'container': k})
         cells.append({'kind': 'args'})
+        for ka in PAIR_KINDS:
+            cells.append({'kind': 'pairs', 'a': ka})
         deep_depths = (limit + 1, 2 * limit, 8 * limit, 64 * limit) if ctx.tier == 'thorough' else (limit + 1, 8 * limit, 64 * limit)
         for m in DEEPSPEC_METHODS:
             for i, d in enumerate(deep_depths):
